@@ -44,6 +44,7 @@ type rec struct {
 	frames      []frame
 	errs        map[string]int
 	addrs       map[addr]struct{}
+	created     map[addr]struct{} // non-zero results of CREATE/CREATE2
 	s16         []s16Event
 	tags        map[string]bool
 	minGas      uint64 // smallest gas seen at a step (references: real remaining gas)
@@ -55,7 +56,7 @@ type rec struct {
 }
 
 func newRec(topIsCreate, diag bool) *rec {
-	return &rec{topIsCreate: topIsCreate, errs: map[string]int{}, addrs: map[addr]struct{}{}, tags: map[string]bool{}, minGas: ^uint64(0), diag: diag}
+	return &rec{topIsCreate: topIsCreate, errs: map[string]int{}, addrs: map[addr]struct{}{}, created: map[addr]struct{}{}, tags: map[string]bool{}, minGas: ^uint64(0), diag: diag}
 }
 
 func normErr(err error) string {
@@ -122,7 +123,7 @@ func (r *rec) step(depth int, pc uint64, op byte, gas uint64, a addr, stack []*b
 	if r.diag {
 		h := uint64(14695981039346656037)
 		n := len(stack)
-		if !fault && err == nil && isCallOp(op) && n > 0 {
+		if isCallOp(op) && n > 0 {
 			n-- // the gas operand is not compared
 		}
 		for i := 0; i < n; i++ {
@@ -146,8 +147,19 @@ func (r *rec) step(depth int, pc uint64, op byte, gas uint64, a addr, stack []*b
 	}
 	// an opcode that is about to execute
 	r.ops[op]++
-	f.lastOp = op
 	n := len(stack)
+	if isCreateOp(f.lastOp) && n > 0 { // result of the CREATE this frame executed last: the new address (or 0)
+		var ca addr
+		cb := stack[n-1].Bytes()
+		if len(cb) <= 20 {
+			copy(ca[20-len(cb):], cb)
+			r.addrs[ca] = struct{}{}
+			if ca != (addr{}) {
+				r.created[ca] = struct{}{}
+			}
+		}
+	}
+	f.lastOp = op
 	back := func(i int) *big.Int { return stack[n-1-i] }
 	switch {
 	case op == RETURN && f.isInit && n >= 2:
@@ -173,7 +185,7 @@ func (r *rec) step(depth int, pc uint64, op byte, gas uint64, a addr, stack []*b
 		switch {
 		case ta == emptyAddr || ta == nonexistAddr:
 			r.tags["dyn:call-to-empty-or-missing-account"] = true
-		case ta[0] == 0 && ta[1] == 0 && ta[18] == 0 && ta[19] >= 1 && ta[19] <= 4 && isZero(ta[:18]):
+		case ta[19] >= 1 && ta[19] <= 4 && isZero(ta[:19]):
 			r.tags["dyn:precompile-1-4"] = true
 		case ta[19] >= 5 && ta[19] <= 8 && isZero(ta[:19]):
 			r.tags["dyn:precompile-5-8"] = true
@@ -277,6 +289,7 @@ type outcome struct {
 	Accounts []acctView // witness only
 	nonces   map[addr]uint64
 	exists   map[addr]bool
+	query    func(a addr) (bool, uint64) // post-state existence and nonce of any address
 }
 
 func classOf(err error) string {
